@@ -499,7 +499,7 @@ func Drive(w *ev.Writer, o Opts) error {
 			case x < 9:
 				own, other, _ := e.hblocks([]string{"real4", "real5", "mc", "sb"}[rng.Intn(4)])
 				ch := headerChoice{idSrc: pick(rng, 0.15, "own", "other"), seqBump: rng.Intn(8) == 0, idFile: rng.Intn(12) == 0, prSrc: pick(rng, 0.15, "own", "other"),
-					keep: pick(rng, 0.15, "full", "no_info", "no_su"), form: pick(rng, 0.25, "one", "trunc", "garbage", "two_roots", "not_exotic", "stale"), opt: randOpt(rng)}
+					keep: pick(rng, 0.15, "full", "no_info", "no_su"), form: pick(rng, 0.25, "one", "trunc", "garbage", "two_roots", "not_exotic", "stale", "storedhash"), opt: randOpt(rng)}
 				e.doHeader(r, label, []string{"header", "lookup"}[rng.Intn(2)], policy, own, other, ch)
 			default:
 				ch := configChoice{idFile: rng.Intn(12) == 0, idSrc: pick(rng, 0.15, "ref", "alt"), spSrc: pick(rng, 0.15, "ref", "alt"), spKeep: pick(rng, 0.1, "full", "no_su"),
